@@ -32,6 +32,10 @@ pub struct ElfSpec {
     /// the `.dynamic` SECTION ends before its DT_NULL terminator (as some strippers leave it): a
     /// reader that walks the section sees no terminator inside it
     pub dynamic_section_cuts_null: bool,
+    /// ELFDATA2MSB: every multi-byte field of the image (headers, notes, dynamic entries) is stored
+    /// most-significant byte first - an image of a foreign architecture mapped by a cross tool, an
+    /// emulator or a binary inspector. (Not drawn by `random`: callers opt in.)
+    pub big_endian: bool,
 }
 
 impl ElfSpec {
@@ -54,6 +58,7 @@ impl ElfSpec {
             soname_last: rng.chance(1, 3),
             // (only used where a watchdog surrounds the reader: a reader that never ends would hang an in-process check)
             dynamic_section_cuts_null: false,
+            big_endian: false,
         }
     }
 }
@@ -77,6 +82,7 @@ struct Out {
     b: Vec<u8>,
     fields: Vec<Field>,
     bits64: bool,
+    be: bool,
 }
 impl Out {
     fn pad_to(&mut self, n: usize) {
@@ -87,7 +93,8 @@ impl Out {
     fn f(&mut self, name: &str, size: usize, v: u64) {
         self.fields.push(Field { name: name.to_string(), off: self.b.len(), size });
         for i in 0..size {
-            self.b.push((v >> (8 * i)) as u8);
+            let sh = if self.be { size - 1 - i } else { i };
+            self.b.push((v >> (8 * sh)) as u8);
         }
     }
     fn word(&mut self, name: &str, v: u64) {
@@ -97,10 +104,15 @@ impl Out {
 }
 
 pub fn note_bytes(name: &[u8], ntype: u32, desc: &[u8]) -> Vec<u8> {
+    note_bytes_e(false, name, ntype, desc)
+}
+
+pub fn note_bytes_e(be: bool, name: &[u8], ntype: u32, desc: &[u8]) -> Vec<u8> {
+    let w = |x: u32| if be { x.to_be_bytes() } else { x.to_le_bytes() };
     let mut v = Vec::new();
-    v.extend_from_slice(&(name.len() as u32).to_le_bytes());
-    v.extend_from_slice(&(desc.len() as u32).to_le_bytes());
-    v.extend_from_slice(&ntype.to_le_bytes());
+    v.extend_from_slice(&w(name.len() as u32));
+    v.extend_from_slice(&w(desc.len() as u32));
+    v.extend_from_slice(&w(ntype));
     v.extend_from_slice(name);
     while v.len() % 4 != 0 {
         v.push(0);
@@ -114,7 +126,8 @@ pub fn note_bytes(name: &[u8], ntype: u32, desc: &[u8]) -> Vec<u8> {
 
 pub fn build(spec: &ElfSpec) -> Built {
     let b64 = spec.bits64;
-    let mut o = Out { b: Vec::new(), fields: Vec::new(), bits64: b64 };
+    let be = spec.big_endian;
+    let mut o = Out { b: Vec::new(), fields: Vec::new(), bits64: b64, be };
     let ehsize = if b64 { 64 } else { 52 };
     let phentsize = if b64 { 56 } else { 32 };
     let shentsize = if b64 { 64 } else { 40 };
@@ -123,8 +136,8 @@ pub fn build(spec: &ElfSpec) -> Built {
     // ---- layout decisions
     let note_off = 0x200usize;
     let note = spec.phdr_note.as_ref().map(|id| {
-        let mut n = note_bytes(b"XYZ\0", 1, &[1, 2, 3, 4]); // a foreign note first
-        n.extend_from_slice(&note_bytes(b"GNU\0", 3, id));
+        let mut n = note_bytes_e(be, b"XYZ\0", 1, &[1, 2, 3, 4]); // a foreign note first
+        n.extend_from_slice(&note_bytes_e(be, b"GNU\0", 3, id));
         n
     });
     let dyn_off = 0x300usize;
@@ -142,7 +155,7 @@ pub fn build(spec: &ElfSpec) -> Built {
     let data_off = text_off + text_pages * 0x1000;
     let data_len = spec.data_pages * 0x1000;
     let tail_off = data_off + data_len; // unloaded: section notes, shstrtab, section headers
-    let secnote = spec.section_note.as_ref().map(|id| note_bytes(b"GNU\0", 3, id));
+    let secnote = spec.section_note.as_ref().map(|id| note_bytes_e(be, b"GNU\0", 3, id));
 
     let mut phdrs: Vec<(u32, u32, u64, u64, u64, u64)> = Vec::new(); // type, flags, offset, filesz, memsz, align
     phdrs.push((1, 4, 0, 0x1000, 0x1000, 0x1000)); // PT_LOAD r--
@@ -177,9 +190,9 @@ pub fn build(spec: &ElfSpec) -> Built {
     let shoff = (shstr_off + shstr.len() + 15) & !15;
 
     // ---- ELF header
-    o.b.extend_from_slice(&[0x7f, b'E', b'L', b'F', if b64 { 2 } else { 1 }, 1, 1, 0, 0, 0, 0, 0, 0, 0, 0, 0]);
+    o.b.extend_from_slice(&[0x7f, b'E', b'L', b'F', if b64 { 2 } else { 1 }, if be { 2 } else { 1 }, 1, 0, 0, 0, 0, 0, 0, 0, 0, 0]);
     o.f("e_type", 2, 3); // ET_DYN
-    o.f("e_machine", 2, if b64 { 62 } else { 3 });
+    o.f("e_machine", 2, match (b64, be) { (true, false) => 62, (false, false) => 3, (true, true) => 22, (false, true) => 20 }); // x86-64, i386, s390x, ppc
     o.f("e_version", 4, 1);
     o.word("e_entry", text_off as u64 + bias);
     o.word("e_phoff", ehsize as u64);
